@@ -1140,6 +1140,7 @@ func (e *Engine) externalBlock() {
 	}
 	nExt := t.Range(1, 3)
 	killed := map[common.Address]bool{}
+	var tail types.Txs
 	useFlight := t.Bool(1, 2)
 	rival := t.Bool(1, 2)
 	for _, u := range e.W.Users {
@@ -1198,8 +1199,14 @@ func (e *Engine) externalBlock() {
 				m.External = true
 			}
 			led.ApplyTransfer(u.Addr, cand)
-			txs = append(txs, CopyTx(cand))
 			e.C.Probe("external-tx")
+			if kindExt == "kill" {
+				// a self-destruct goes to the very end of the block (nothing
+				// after it may address the contract) and ends the sender's run
+				tail = append(tail, CopyTx(cand))
+				break
+			}
+			txs = append(txs, CopyTx(cand))
 		}
 	}
 	if e.U != nil {
@@ -1257,6 +1264,7 @@ func (e *Engine) externalBlock() {
 			}
 		}
 	}
+	txs = append(txs, tail...)
 	b, site, msg, panicked := e.W.Propose(0, txs, true)
 	if panicked {
 		e.C.HarnessTrouble("external block did not execute at %s: %s (%s)", site, msg, e.describe(b))
